@@ -145,7 +145,7 @@ theorem lexes_def (d : Def) (h : Exec.defWf d) (k : Nat) :
       have h0 : Lexes true (indentLF k ot) [(.name, some ot)] := by
         rw [indentLF_no10 k ot (name_no10 hov)]; exact Lexes.name ot hov
       have h1 := lexes_optSpace h0 (lexOpt_name k n hn)
-      have h2 := lexes_optSpace h1 (lexes_dirs w hw hT hC ds hds k)
+      have h2 := lexes_optSpace h1 (lexes_dirs w hw hT hC false ds hds k)
       have h3 := lexes_optSpace h2 (lexOpt_of_ne (indentLF_ne_nil hbne) hB)
       simp only [indentLF_append, indentLF_wrap]
       simpa [indentLF, List.append_assoc] using h3
@@ -165,7 +165,7 @@ theorem lexes_def (d : Def) (h : Exec.defWf d) (k : Nat) :
     have h1 := lexes_optSpace h0 (hname n hn)
     have h2 := lexes_optSpace h1 (hname (S "on") (by decide))
     have h3 := lexes_optSpace h2 (hname tc htc)
-    have h4 := lexes_optSpace h3 (lexes_dirs w hw hT hC ds hds k)
+    have h4 := lexes_optSpace h3 (lexes_dirs w hw hT hC false ds hds k)
     have h5 := lexes_optSpace h4 (lexOpt_of_ne (indentLF_ne_nil hbne) hB)
     simp only [indentLF_append, indentLF_wrap]
     simpa [indentLF, Exec.defKvs, List.append_assoc] using h5
